@@ -52,10 +52,13 @@ func scenarios(prop string, thorough bool) []*Scenario {
 	switch prop {
 	case "C13":
 		alpha := append(append(append([]string{}, handshakeLetters...), headersLetters...), dataLetters...)
+		alpha = append(alpha, "headers[unknown]+unframed[bsv-split]")
 		for _, role := range []netsim.Options{{TxManager: true, Manager: true}, {Manager: true}, {VerifyOnly: true, Manager: true}} {
 			r = append(r, &Scenario{Name: roleName(role) + "/from-connect", Opt: role, Alphabet: alpha, Depth: pick(4, 5), oracle: oracleC13})
 			r = append(r, &Scenario{Name: roleName(role) + "/after-handshake", Opt: role, Prefix: []string{"version", "verack"}, Alphabet: alpha, Depth: pick(3, 4), oracle: oracleC13})
 		}
+		// a repository without any chain split points (empty verify-only locator)
+		r = append(r, &Scenario{Name: "full+txmanager/no-split-table/from-connect", Opt: netsim.Options{TxManager: true, Manager: true, NoSplits: true}, Alphabet: alpha, Depth: pick(3, 4), oracle: oracleC13})
 		// the same with the stream arriving in pieces (reads of at most 7 bytes)
 		r = append(r, &Scenario{Name: "full+txmanager/from-connect/short-reads-7", Opt: netsim.Options{TxManager: true, Manager: true, ReadChunk: 7}, Alphabet: alpha, Depth: pick(3, 4), oracle: oracleC13})
 	case "C03":
@@ -80,6 +83,10 @@ func scenarios(prop string, thorough bool) []*Scenario {
 			r = append(r, &Scenario{Name: roleName(role) + "/ready+block-requested", Opt: role, Prefix: append(append([]string{}, ready...), "!request-block1"),
 				Alphabet: alpha, Depth: pick(2, 3), oracle: oracleC14})
 		}
+		// a block that was requested and cancelled again before the peer answered: the peer delivers
+		// it anyway (or anything else)
+		r = append(r, &Scenario{Name: "full+txmanager/ready+block-requested-then-cancelled", Opt: netsim.Options{TxManager: true},
+			Prefix: append(append([]string{}, ready...), "!request-block1", "!cancel-block1"), Alphabet: alpha, Depth: pick(1, 2), oracle: oracleC14})
 		// the same stream arriving in pieces (short reads): framing must not depend on how the bytes
 		// are delivered. 7 does not divide the 24-byte header; 1 is the extreme (without the 4 MiB letter).
 		for _, chunk := range []int{7, 1} {
@@ -133,6 +140,19 @@ func oracleC13(o *obs) []mc.Violation {
 			}
 			if strings.HasPrefix(l, "headers[bsv-split") && version && verack {
 				handshakeFirst = true
+			}
+		}
+		if o.sc.Opt.NoSplits {
+			// without split points the verifying reply is whatever the repository's VerifyHeader
+			// accepts, but a reply there must have been: a headers message after the handshake
+			handshakeFirst = false
+			version, verack = false, false
+			for _, l := range o.all {
+				version = version || l == "version"
+				verack = verack || l == "verack"
+				if strings.HasPrefix(l, "headers[") && version && verack {
+					handshakeFirst = true
+				}
 			}
 		}
 		if !handshakeFirst {
